@@ -36,7 +36,8 @@ def run_simple(prop, spec, tier, known_ids, t0, args):
         mc = spec['mc'](results)
     extra_viol = []
     for key in spec.get('digest_equal', []):
-        vals = {r.get('config'): r.get('extra', {}).get(key) for r in results}
+      for grp in spec.get('digest_groups', [None]):
+        vals = {r.get('config'): r.get('extra', {}).get(key) for r in results if grp is None or r.get('config') in grp}
         if len(set(vals.values())) > 1:
             extra_viol.append({'op': f'cross-configuration digest {key}', 'config': ','.join(sorted(vals)), 'msg': f'results expressed through named members differ between configurations: {vals}', 'input_bits': [], 'got_bits': [str(v) for v in vals.values()], 'want_bits': []})
     return G.report(prop, tier, spec['level'], results, spec['rule'], t0, src=spec['src'], model_checking=mc, extra_viol=extra_viol)
@@ -322,31 +323,31 @@ PROPS = {
    technique='exhaustive differential exploration over the configuration lattice: the same operation table (the drivers of the other properties, with their complete quick/thorough input domains) is compiled once per non-semantic configuration and every per-operation observation digest must equal the baseline build; a differing digest is bisected to the first differing input',
    text='Every non-semantic macro / language level / optimisation level / compiler is one point of the configuration lattice and one separate build of the same driver sources from the working tree. Each driver op accumulates a digest of every value GLM returned on every enumerated input (C01: every scalar and vector result of every function x L x T x Q; C11/C14: the std-versus-fallback sensitive functions on the float lattices; integer, packing, quaternion and geometric drivers). Digest equality with the baseline is required for every (op, configuration); results are expressed through named members so storage-order switches are compared by value.',
    rule='configurations x operation table (see coverage.operation_table) x the quick (thorough) domains of those drivers; evaluations are summed over all builds; a case is non-trivial as defined by its driver.'),
- 'C04': dict(src='drivers/c04.cpp', level='exploration', configs=['default', 'quat_wxyz', 'quat_ctor_xyzw'], digest_equal=['named_member_digest_float', 'named_member_digest_double'],
+ 'C04': dict(src='drivers/c04.cpp', level='exploration', configs=['default', 'quat_wxyz', 'quat_ctor_xyzw', 'intr_sse2_defaligned', 'intr_avx2_defaligned_wxyz'], digest_groups=[['default', 'quat_wxyz', 'quat_ctor_xyzw']], digest_equal=['named_member_digest_float', 'named_member_digest_double'],
    technique='exhaustive enumeration of a finite rotation set (integer quaternions, icosians, axis-angle lattice, 10^-j neighbourhoods of every branch boundary and gimbal-lock set, each +-1..3 ulp) x vector lattice through every quaternion/matrix/axis-angle/Euler entry point, against a long-double Hamilton/Rodrigues reference, in both quaternion storage orders',
    text='q*v, mat3/4_cast, quat_cast (all four largest-component branches and ties), products, angle/axis/angleAxis, eulerAngles/quat(euler), qua(u,v) incl. parallel/opposite/nearly-opposite pairs, inverse/conjugate/normalize, all 12 gtx eulerAngleABC orders + 6 two-angle forms + yawPitchRoll/orientate with extractEulerAngle round trips, dual quaternions; the same source is built with the default and the WXYZ layout and a digest of every result expressed through named members must be identical in both.',
    rule='ROT (57 800 quick / 152 812 thorough quaternions) x VEC3L; ROT_small^2 for products; 55^3 (87^3) angle triples incl. +-pi/2 +-10^-j; NEAR_OPPOSITE pairs on both sides of the fallback threshold. Non-trivial = case inside the stated domain (unit quaternion up to rounding, non-degenerate vectors).'),
- 'C08': dict(src='drivers/c08.cpp', level='exploration', configs=['default', 'lh', 'zo', 'lh_zo'], flags=['-DC08_HAVE_INFINITEPERSPECTIVE_LH_RH'],
+ 'C08': dict(src='drivers/c08.cpp', level='exploration', configs=['default', 'lh', 'zo', 'lh_zo', 'intr_sse2_defaligned', 'intr_avx2_defaligned'], configs_quick=['default', 'lh', 'zo', 'lh_zo', 'intr_sse2_defaligned'], flags=['-DC08_HAVE_INFINITEPERSPECTIVE_LH_RH'],
    technique='exhaustive enumeration of the parameter lattice (l<r, b<t, near<far, fovy, aspect, width/height, viewports) x every builder variant in all four clip-control build configurations; oracle = the view-volume corners must map to the clip-cube corners, dispatch must be bit-identical to the selected suffixed variant',
    text='Every ortho/frustum/perspective/perspectiveFov/infinitePerspective/tweakedInfinitePerspective variant (RH/LH x NO/ZO) maps its eight view-volume corners (infinite: near corners + depth monotone and bounded along 2^k.near) to the clip cube; perspective == symmetric frustum; perspectiveFov == perspective(w/h); in each of the four macro configurations the unsuffixed and half-suffixed builders are bit-identical to the fully suffixed variant the macros select; project/unProject/pickMatrix against the formula, mutual inverses, cube -> viewport x [0,1].',
    rule='full product of the DESIGN section C08 parameter grids (quick) / denser grids (thorough), float and double, in each configuration; cases whose error bound cannot be formed (singular to working precision) are counted trivial.'),
- 'C09': dict(src='drivers/c09.cpp', level='exploration', configs=['default', 'lh', 'zo', 'lh_zo'], flags=['-DC09_RECOMPOSE_DOUBLE'],
+ 'C09': dict(src='drivers/c09.cpp', level='exploration', configs=['default', 'lh', 'zo', 'lh_zo', 'intr_sse2_defaligned', 'intr_avx2_defaligned_wxyz'], configs_quick=['default', 'lh', 'zo', 'lh_zo', 'intr_sse2_defaligned'], flags=['-DC09_RECOMPOSE_DOUBLE'],
    technique='exhaustive enumeration of base matrices x vectors x axes x angle ladders x shear parameters through every transform builder, against M * E with E built entrywise in long double; lookAt frames and TRS(+skew,+perspective) compositions through decompose/recompose; default and left-handed builds',
    text='translate/rotate/scale/shear (fast and _slow forms), gtx transform/transform2/rotate_vector/rotate_normalized_axis/matrix_transform_2d/matrix_interpolation helpers equal M times the elementary matrix; lookAtRH/LH are rigid, send eye to 0, the view direction to -z/+z and up into the +y half-plane, and lookAt follows the configured handedness; recompose(decompose(M)) == M over rotation set x scales x translations x skews x perspective kinds with every quaternion-extraction branch reached.',
    rule='M(36 base matrices) x VEC3L(378) x 80 axes x 133 (805) angles x shear grids; 3.39M (31M) TRS compositions; invalid lookAt frames skipped (trivial).'),
- 'C10': dict(src='drivers/c10.cpp', level='exploration',
+ 'C10': dict(src='drivers/c10.cpp', level='exploration', configs=['default', 'intr_sse2_defaligned', 'intr_avx2_defaligned'], configs_quick=['default', 'intr_sse2_defaligned'],
    technique='exhaustive enumeration of complete small-integer matrix grids ({-2..2}^4, {-2..2}^9, {0,1}^16 / {-1,0,1}^16 / {-1,0,1,2}^16) and scaled / near-singular families, against an exact __int128 adjugate/determinant reference with the condition number computed exactly',
    text='determinant (Leibniz, multiplicativity, transpose invariance), inverse (both residuals bounded by c.N.u.cond, exact for unimodular integer matrices), inverseTranspose, affineInverse, operator/ (mat/mat, mat/vec, vec/mat), gtx adjugate/diagonal*/qr/rq/matrix_query, integer determinant. By multilinearity a full {0,1}/{-1,0,1} grid is a complete identity test of the cofactor polynomials.',
    rule='SMALLMAT grids complete; scaled copies 2^k; near-singular M0 + 2^-p E_ij; matrices beyond the stated condition bound get the determinant check only.'),
- 'C12': dict(src='drivers/c12.cpp', level='exploration',
+ 'C12': dict(src='drivers/c12.cpp', level='exploration', configs=['default', 'intr_sse2_defaligned', 'intr_avx2_defaligned'],
    technique='exhaustive enumeration of vector lattices ({-2..2}^L, tagged vectors, 2^+-20 scalings, unit-vector angle ladders, nearly-degenerate pairs, critical refraction ratios and both float neighbours) for L=1..4 and the scalar overloads, against long-double definitions',
    text='dot, length, distance, cross (determinant formula, orthogonality, anti-commutativity), normalize, reflect (formula, length preservation, involution), refract (Snell, exactly zero on total internal reflection, branch decided exactly where k is exactly computable), faceforward (sign decided exactly where certain), gtx norm/projection/perpendicular/orthonormalize/vector_angle/closest_point/normal/mixed_product, float and double.',
    rule='VSET^2, NEAR pairs, UNIT^2 x ETA, FFSPEC; degenerate inputs (zero vectors, parallel pairs where the function is undefined) skipped as trivial.'),
- 'C13': dict(src='drivers/c13.cpp', level='exploration', configs=['default', 'quat_ctor_xyzw'],
+ 'C13': dict(src='drivers/c13.cpp', level='exploration', configs=['default', 'quat_ctor_xyzw', 'intr_sse2_defaligned', 'intr_avx2_defaligned_wxyz'],
    technique='exhaustive enumeration of quaternion pairs (rotation table x axes x a separation ladder from 1e-9 to pi-1e-9 that hits every float on both sides of the linear-fallback switch and of cos=0, both signs) x interpolation factors x spin counts, against the great-circle point evaluated in long double',
    text='slerp (end points, unit norm, on the arc, shorter arc, angular position t.Omega, never NaN, symmetry), mix (oriented arc, conditioning-aware), slerp with spins, lerp, shortMix, fastMix, squad, dual-quaternion lerp; both sides of every code branch counted.',
    rule='PAIRS (42 336 quick / 397 488 thorough) + ROT^2 x t13 (x k=-3..3); cases beyond the stated separation for mix/fastMix are trivial.'),
- 'C19': dict(src='drivers/c19.cpp', level='exploration',
+ 'C19': dict(src='drivers/c19.cpp', level='exploration', configs=['default', 'intr_sse2_defaligned', 'intr_avx2_defaligned'], configs_quick=['default', 'intr_sse2_defaligned'],
    technique='exhaustive enumeration of all 2^24 8-bit RGB triples (and 16-bit lattices) through the integer YCoCg-R pair on every carrier type, of consecutive-float pairs on dense grids (all floats of [0,1] in the thorough tier) through the sRGB pair for five gammas, and of the 8-bit RGB cube / hue grids through HSV',
    text='rgb2YCoCgR/YCoCgR2rgb exactly lossless on all 2^24 triples for u8,i16,u16,i32,u32,i64 carriers; sRGB pair: range, fixes 0 and 1, monotone between adjacent grid points, mutual inverse within the bound derived from the curve constants, alpha bits untouched; HSV: hue in [0,360), round trips both ways; float YCoCg round trips; saturation/luminosity weights.',
    rule='ALL 2^24 triples; grids k/16384 + toe k/262144 + both breakpoints +-2ulp (thorough: every consecutive float pair in [0,1]); hue 360k/3600 + sector boundaries +-2ulp.'),
@@ -358,7 +359,7 @@ PROPS = {
    technique='exhaustive enumeration of operand lattices that are complete for bilinear index errors (TAG, DEV_2 over base 0, DEV_1 over TAG) for all 27 products / 9 shapes / 81 conversions, plus breadth-first exploration of all operation sequences up to a depth over a 12-operation alphabet, each replayed on the real matrix objects and on a plain-array reference model',
    text='Stateless part: every shape x compatible operand shape x element type is evaluated on all operand tuples differing from zero in at most two entries (five non-zero values each), on distinct-prime tagged operands and their single-entry deviations; by bilinearity this exposes every wrong, missing, duplicated or mis-signed product term. Explicit-state part: all sequences (depth 2 quick, 3-4 thorough) of compound assignments, ++/--, negation, self-multiplication (aliasing) and transpose from three start matrices per shape, states = value vectors, every transition validated against the array model.',
    rule='per op: TAG + DEV_2(0,{-2,-1,1,2,3}) + DEV_1(TAG,{0,-p}) over the combined entry list of the operands (thorough adds a DEV_3 sub-lattice for <=18 entries and element types uint, i8, i16, i64); sequences: all words over the 12-op alphabet up to the depth from 3 start matrices; a sequence whose exact result leaves the exactly-representable range is cut (counted trivial).'),
- 'C06': dict(src='drivers/c06.cpp', level='exploration',
+ 'C06': dict(src='drivers/c06.cpp', level='exploration', configs=['default', 'intr_sse2_defaligned', 'intr_avx2_defaligned'], configs_quick=['default', 'intr_sse2_defaligned'],
    technique='exhaustive enumeration of every code of every field of every pack format (all 2^2..2^16 codes per field, three companion patterns) and of structured float lattices (all 2^32 floats for the scalar pack functions, thorough) through pack/unpack, against a per-format reference decoder',
    text='37 formats described once (field offset/width/kind) and explored generically. Code sweep: every code of every <=16-bit field (complete) - decode value and component order, re-pack of canonical codes, unpack.pack.unpack idempotence, Inf/NaN codes, monotone decoding. Real sweep: every float of F32_EDGE + a grid around every quantisation step (quick) / all 2^32 floats for single-field formats (thorough) in every field: half-step (normalised) or one-mantissa-step (small float, shared exponent) accuracy, clamping at both range ends, monotonicity, no cross-talk between fields. F3x9_E1x5: all 2^32 words in the thorough tier.',
    rule='codes: ALL_CODES = {format} x {field} x {0..2^w-1} x {companions 0, all-ones, tag}; 32-bit integer fields over INT32_EDGE. reals: {format} x {field} x (STEP_GRID + F32_EDGE), thorough adds F32_ALL for single-field formats and every 257th float for the others. NaN inputs and non-real formats are skipped in the real sweep (counted trivial).'),
